@@ -30,6 +30,9 @@ def run_k(ctx, kres):
     from ..main import Trace
     v = k_suite(ctx, kres, "K08-flag-matrix(exhaustive)", [Trace("matrix", gen.flag_matrix(gen.load_tables(), ctx.seed))], in_projection)
     v += k_suite(ctx, kres, "K08-objects", ksuites.object_traces(ctx, salt=81), in_projection)
+    # history attributes of derived and unwrapped keys (C_DeriveKey / C_UnwrapKey paths of the model)
+    n = 16 if ctx.quick else 300
+    v += k_suite(ctx, kres, "K08-derive-unwrap", [Trace("wrap%d" % i, gen.wrap_history(ctx.seed * 2750159 + i, 50)) for i in range(n)], in_projection)
     return v
 
 
